@@ -210,7 +210,7 @@ package eventlogger
 //@ type linkedNode ghostfield chain map[int]*linkedNode
 //@ type linkedNode ghostfield clen int
 
-//@ pure isChain(root *linkedNode) bool = root != nil && root.clen >= 1 && root.chain[0] == root && (forall k int :: 0 <= k && k < root.clen ==> (k in root.chain) && root.chain[k] != nil && allocated(root.chain[k]) && (k < root.clen - 1 ==> len(root.chain[k].next) == 1 && root.chain[k].next[0] == root.chain[k+1]) && (k == root.clen - 1 ==> len(root.chain[k].next) == 0)) && (forall j int, k int :: 0 <= j && j < k && k < root.clen ==> root.chain[j] != root.chain[k])
+//@ pure isChain(root *linkedNode) bool = root != nil && root.clen >= 1 && root.chain[0] == root && (forall k int :: 0 <= k && k < root.clen ==> (k in root.chain) && root.chain[k] != nil && allocated(root.chain[k]) && allocated(arr(root.chain[k].next)) && (k < root.clen - 1 ==> len(root.chain[k].next) == 1 && root.chain[k].next[0] == root.chain[k+1]) && (k == root.clen - 1 ==> len(root.chain[k].next) == 0)) && (forall j int, k int :: 0 <= j && j < k && k < root.clen ==> root.chain[j] != root.chain[k])
 
 //@ func linkNodes(nodes, ids) (root, err)
 //@   assigns linkedNode.node, linkedNode.nodeID, linkedNode.next, linkedNode.chain, linkedNode.clen, elem:*linkedNode
@@ -221,7 +221,7 @@ package eventlogger
 //@   ghost at loop 1 entry havoc linkedNode.chain, linkedNode.clen: root.clen == 1 && (forall k int :: (k in root.chain) == (k == 0) && (k == 0 ==> root.chain[k] == root)) && onlychanged("linkedNode.chain", root) && onlychanged("linkedNode.clen", root)
 //@   ghost at loop 1 backedge havoc linkedNode.chain, linkedNode.clen: root.clen == old(root.clen) + 1 && (forall k int :: (k in root.chain) == (old(k in root.chain) || k == old(root.clen)) && root.chain[k] == (k == old(root.clen) ? cur : old(root.chain[k]))) && onlychanged("linkedNode.chain", root) && onlychanged("linkedNode.clen", root)
 //@   loop 1 invariant fresh(root) && root.clen == rangeindex + 2 && cur == root.chain[rangeindex + 1] && len(nodes) == len(ids) && len(nodes) >= 1
-//@   loop 1 invariant root.chain[0] == root && (forall k int :: 0 <= k && k < root.clen ==> (k in root.chain) && root.chain[k] != nil && fresh(root.chain[k]) && root.chain[k].node == nodes[k] && root.chain[k].nodeID == ids[k] && (k < root.clen - 1 ==> len(root.chain[k].next) == 1 && root.chain[k].next[0] == root.chain[k+1]) && (k == root.clen - 1 ==> len(root.chain[k].next) == 0))
+//@   loop 1 invariant root.chain[0] == root && (forall k int :: 0 <= k && k < root.clen ==> (k in root.chain) && root.chain[k] != nil && fresh(root.chain[k]) && allocated(arr(root.chain[k].next)) && root.chain[k].node == nodes[k] && root.chain[k].nodeID == ids[k] && (k < root.clen - 1 ==> len(root.chain[k].next) == 1 && root.chain[k].next[0] == root.chain[k+1]) && (k == root.clen - 1 ==> len(root.chain[k].next) == 0))
 //@   loop 1 invariant forall j int, k int :: 0 <= j && j < k && k < root.clen ==> root.chain[j] != root.chain[k]
 //@   loop 1 invariant forall n *linkedNode :: old(allocated(n)) ==> n.node == old(n.node) && n.nodeID == old(n.nodeID) && n.next == old(n.next) && n.clen == old(n.clen) && (forall k int :: (k in n.chain) == old(k in n.chain) && n.chain[k] == old(n.chain[k]))
 //@   loop 1 invariant oldobjects("elem:*linkedNode")
@@ -245,10 +245,14 @@ package eventlogger
 
 //@ pure acceptable(b *Broker, def Pipeline) bool = def.PipelineID != "" && def.EventType != "" && len(def.NodeIDs) >= 2 && (forall j int :: 0 <= j && j < len(def.NodeIDs) ==> def.NodeIDs[j] != "" && (def.NodeIDs[j] in b.nodes)) && nodeType(b.nodes[def.NodeIDs[len(def.NodeIDs)-1]].node) == NodeTypeSink && isFormatterLike(b.nodes[def.NodeIDs[len(def.NodeIDs)-2]].node)
 
+//@ pure listed(root *linkedNode, id NodeID) bool = exists k int :: 0 <= k && k < root.clen && root.chain[k].nodeID == id
+
+//@ pure registeredPipelineLists(b *Broker, t EventType, p PipelineID, x NodeID) bool = (t in b.graphs) && (p in view(b.graphs[t].roots.m)) && listed(view(b.graphs[t].roots.m)[p].rootNode, x)
+
 //@ pure denied(b *Broker, def Pipeline) bool = (def.EventType in b.graphs) && (def.PipelineID in view(b.graphs[def.EventType].roots.m)) && view(b.graphs[def.EventType].roots.m)[def.PipelineID].registrationPolicy == DenyOverwrite
 
 //@ func (*Broker).RegisterPipeline(def, opt) (err)
-//@   requires b != nil && noLocksHeld() && wfGraphs(b) && wfNodes(b) && nodesNonNil(b)
+//@   requires b != nil && noLocksHeld() && wfGraphs(b) && wfNodes(b) && nodesNonNil(b) && wfAllPipelines(b)
 //@   ensures C05/accepted-definition-wellformed: err == nil ==> def.PipelineID != "" && def.EventType != "" && len(def.NodeIDs) >= 2
 //@   ensures C05/accepted-ids-registered: err == nil ==> (forall j int :: 0 <= j && j < len(def.NodeIDs) ==> def.NodeIDs[j] != "" && old(def.NodeIDs[j] in b.nodes))
 //@   ensures C05/accepted-ends-formatter-sink: err == nil ==> nodeType(old(b.nodes[def.NodeIDs[len(def.NodeIDs)-1]].node)) == NodeTypeSink && isFormatterLike(old(b.nodes[def.NodeIDs[len(def.NodeIDs)-2]].node))
@@ -262,12 +266,17 @@ package eventlogger
 //@   ensures C07/existing-graphs-kept: forall u EventType :: old(u in b.graphs) ==> (u in b.graphs) && b.graphs[u] == old(b.graphs[u])
 //@   ensures C06+C07/node-table-kept: (forall i NodeID :: (i in b.nodes) == old(i in b.nodes) && b.nodes[i] == old(b.nodes[i])) && (forall u *nodeUsage :: old(allocated(u)) ==> u.node == old(u.node) && u.registrationPolicy == old(u.registrationPolicy))
 //@   ensures wf: wfGraphs(b) && wfNodes(b)
+//@   ensures wf-pipelines: wfAllPipelines(b)
+//@   ensures C06/failure-changes-no-count: err != nil ==> (forall u *nodeUsage :: old(allocated(u)) ==> u.referenceCount == old(u.referenceCount))
+//@   ensures C06/one-reference-per-listed-node: err == nil ==> (forall x NodeID :: (x in b.nodes) ==> b.nodes[x].referenceCount == old(b.nodes[x].referenceCount) - ((old(registeredPipelineLists(b, def.EventType, def.PipelineID, x)) && old(b.nodes[x].referenceCount) > 0) ? 1 : 0) + ((x in def.NodeIDs) ? 1 : 0))
 //@   ensures unlocked: noLocksHeld()
 //@   ensures C04/single-critical-section: acquisitions(b.lock) <= old(acquisitions(b.lock)) + 1
 //@   rangeloop 1 invariant pol == AllowOverwrite && !seen(1, def.PipelineID)
 //@   loop 1 invariant len(nodes) == len(def.NodeIDs) && (forall j int :: 0 <= j && j <= rangeindex ==> (def.NodeIDs[j] in b.nodes) && nodes[j] == b.nodes[def.NodeIDs[j]].node)
 //@   ghost call (*graph).doValidate#1 with root = root, k = 0
-//@   loop 2 invariant forall u *nodeUsage :: u.referenceCount >= old(u.referenceCount)
+//@   loop 2 invariant held(b.lock) == 2 && (forall x NodeID :: visited(x) ==> (x in ranged()))
+//@   loop 2 invariant forall x NodeID :: (x in b.nodes) ==> b.nodes[x].referenceCount == old(b.nodes[x].referenceCount) - (((x in replaced) && old(b.nodes[x].referenceCount) > 0) ? 1 : 0) + (visited(x) ? 1 : 0)
+//@   loop 2 invariant forall u *nodeUsage :: (forall x NodeID :: (x in b.nodes) ==> b.nodes[x] != u) ==> u.referenceCount == old(u.referenceCount)
 
 // ---- event fan-out (C01, C02, C03) ----
 // Trace events used below (see DESIGN.md): "call:eventlogger.Node.Process" a0=node value a2=ctx a3=event in,
@@ -387,3 +396,65 @@ package eventlogger
 //@   loop 2 invariant L2b: forall a int :: 0 <= a && a < len(graphs) ==> (b.gtyp[a] in b.graphs) && graphs[a] == b.graphs[b.gtyp[a]]
 //@   loop 2 invariant L2c: forall a int, p PipelineID, j int :: 0 <= a && a <= rangeindex && (p in view(graphs[a].roots.m)) && 0 <= j && j < view(graphs[a].roots.m)[p].rootNode.clen ==> newCallsOn("Node.Reopen", view(graphs[a].roots.m)[p].rootNode.chain[j].node) > 0
 //@   loop 2 invariant forall i int :: old(ev_n) <= i && i < ev_n && ev_kind(i) == "call:eventlogger.Node.Reopen" ==> ev_a(i, 5) == 0
+
+// ---- flatten / Nodes: the distinct node IDs of a linked pipeline (C06) ----
+// ghost: l.fj counts the nodes popped so far; l.fwit[id] is a chain position carrying id (witness).
+//@ type linkedNode ghostfield fj int
+//@ type linkedNode ghostfield fwit map[NodeID]int
+
+//@ func (*linkedNode).flatten() (flattened)
+//@   requires isChain(l)
+//@   assigns map:map[NodeID]struct{}, elem:*linkedNode, linkedNode.fj, linkedNode.fwit
+//@   ensures C06/covers-chain: forall k int :: 0 <= k && k < l.clen ==> (l.chain[k].nodeID in flattened)
+//@   ensures C06/only-chain-ids: forall id NodeID :: (id in flattened) ==> 0 <= l.fwit[id] && l.fwit[id] < l.clen && l.chain[l.fwit[id]].nodeID == id
+//@   ensures result-is-new: flattened != nil && fresh(flattened)
+//@   ensures frame: oldobjects("elem:*linkedNode") && oldobjects("map:map[NodeID]struct{}")
+//@   ghost at loop 1 entry havoc linkedNode.fj, linkedNode.fwit: l.fj == 0
+//@   ghost at loop 1 backedge havoc linkedNode.fj, linkedNode.fwit: l.fj == old(l.fj) + 1 && (forall x NodeID :: l.fwit[x] == (x == l.chain[old(l.fj)].nodeID ? old(l.fj) : old(l.fwit[x])))
+//@   loop 1 invariant A: 0 <= l.fj && l.fj <= l.clen
+//@   loop 1 invariant B: l.fj < l.clen ==> len(stack) == 1 && stack[0] == l.chain[l.fj]
+//@   loop 1 invariant C: l.fj == l.clen ==> len(stack) == 0
+//@   loop 1 invariant D: flattened != nil && fresh(flattened) && fresh(arr(stack))
+//@   loop 1 invariant forall k int :: 0 <= k && k < l.fj ==> (l.chain[k].nodeID in flattened)
+//@   loop 1 invariant forall id NodeID :: (id in flattened) ==> 0 <= l.fwit[id] && l.fwit[id] < l.fj && l.chain[l.fwit[id]].nodeID == id
+//@   loop 1 invariant oldobjects("elem:*linkedNode") && oldobjects("map:map[NodeID]struct{}")
+//@   loop 2 invariant 0 <= l.fj && l.fj < l.clen && node == l.chain[l.fj] && (rangeindex == -1 ==> len(stack) == 0) && (rangeindex >= 0 ==> len(stack) == 1 && stack[0] == node.next[0]) && flattened != nil && fresh(flattened) && fresh(arr(stack))
+//@   loop 2 invariant forall k int :: 0 <= k && k <= l.fj ==> (l.chain[k].nodeID in flattened)
+//@   loop 2 invariant forall id NodeID :: (id in flattened) ==> id == node.nodeID || (0 <= l.fwit[id] && l.fwit[id] < l.fj && l.chain[l.fwit[id]].nodeID == id)
+//@   loop 2 invariant oldobjects("elem:*linkedNode") && oldobjects("map:map[NodeID]struct{}")
+
+// ghost: g.npos[x] is the position of node ID x in the slice returned by Nodes (witness)
+//@ type graphMap ghostfield npos map[NodeID]int
+
+//@ func (*graphMap).Nodes(id) (ids, err)
+//@   requires g != nil && ((id in view(g.m)) ==> view(g.m)[id] != nil && isChain(view(g.m)[id].rootNode))
+//@   assigns map:map[NodeID]struct{}, elem:*linkedNode, linkedNode.fj, linkedNode.fwit, elem:NodeID, graphMap.npos, iter
+//@   ensures C06/unknown-pipeline-has-no-nodes: !(id in view(g.m)) ==> err != nil
+//@   ensures C06/error-returns-nothing: err != nil ==> len(ids) == 0
+//@   ensures C06/only-ids-of-the-pipeline: err == nil ==> (id in view(g.m)) && (forall a int :: 0 <= a && a < len(ids) ==> 0 <= view(g.m)[id].rootNode.fwit[ids[a]] && view(g.m)[id].rootNode.fwit[ids[a]] < view(g.m)[id].rootNode.clen && view(g.m)[id].rootNode.chain[view(g.m)[id].rootNode.fwit[ids[a]]].nodeID == ids[a])
+//@   ensures C06/every-id-of-the-pipeline: err == nil ==> (forall k int :: 0 <= k && k < view(g.m)[id].rootNode.clen ==> 0 <= g.npos[view(g.m)[id].rootNode.chain[k].nodeID] && g.npos[view(g.m)[id].rootNode.chain[k].nodeID] < len(ids) && ids[g.npos[view(g.m)[id].rootNode.chain[k].nodeID]] == view(g.m)[id].rootNode.chain[k].nodeID)
+//@   ensures C06/each-id-once: forall a int, c int :: 0 <= a && a < c && c < len(ids) ==> ids[a] != ids[c]
+//@   ensures frame: (err == nil ==> fresh(arr(ids))) && oldobjects("elem:*linkedNode") && oldobjects("map:map[NodeID]struct{}") && oldobjects("elem:NodeID")
+//@   ghost at loop 1 backedge havoc graphMap.npos: forall x NodeID :: g.npos[x] == (x == k ? i - 1 : old(g.npos[x]))
+//@   loop 1 invariant 0 <= i && i == produced() && i <= len(result) && fresh(arr(result)) && len(result) == len(nodes) && oldobjects("elem:NodeID")
+//@   loop 1 invariant forall a int :: 0 <= a && a < i ==> visited(result[a])
+//@   loop 1 invariant forall x NodeID :: visited(x) ==> (x in nodes) && 0 <= g.npos[x] && g.npos[x] < i && result[g.npos[x]] == x
+//@   loop 1 invariant forall a int, c int :: 0 <= a && a < c && c < i ==> result[a] != result[c]
+
+// ---- in-use accounting (C06) ----
+// ghost: b.uses[id] is the number of registered pipelines (of any event type) that list node id. It is
+// updated where a pipeline enters or leaves a graph (graphMap.Store / Delete) from the property's definition.
+//@ type Broker ghostfield uses map[NodeID]int
+
+
+//@ pure wfUses(b *Broker) bool = forall id NodeID :: b.uses[id] >= 0 && ((id in b.nodes) ==> b.nodes[id].referenceCount == b.uses[id]) && (b.uses[id] > 0 ==> (id in b.nodes))
+
+//@ func (*Broker).releaseNodes(ids)
+//@   requires b != nil && held(b.lock) == 2 && wfNodes(b)
+//@   requires forall a int, c int :: 0 <= a && a < c && c < len(ids) ==> ids[a] != ids[c]
+//@   assigns nodeUsage.referenceCount
+//@   ensures C06/one-reference-released-per-listed-node: forall x NodeID :: (x in b.nodes) ==> b.nodes[x].referenceCount == old(b.nodes[x].referenceCount) - (((x in ids) && old(b.nodes[x].referenceCount) > 0) ? 1 : 0)
+//@   ensures C06/unregistered-usage-untouched: forall u *nodeUsage :: (forall x NodeID :: (x in b.nodes) ==> b.nodes[x] != u) ==> u.referenceCount == old(u.referenceCount)
+//@   ensures wf: wfNodes(b)
+//@   loop 1 invariant forall x NodeID :: (x in b.nodes) ==> b.nodes[x].referenceCount == old(b.nodes[x].referenceCount) - (((x in ids[:rangeindex+1]) && old(b.nodes[x].referenceCount) > 0) ? 1 : 0)
+//@   loop 1 invariant forall u *nodeUsage :: (forall x NodeID :: (x in b.nodes) ==> b.nodes[x] != u) ==> u.referenceCount == old(u.referenceCount)
